@@ -864,6 +864,16 @@ pub fn exec(q: &mut AnyQ, m: &mut Model, st: &Step, cx: &mut Ctx) {
             q.shrink_to_fit();
             expect!(cx, C17, "shrink_capacity", q.capacity() >= q.len(), "after shrink_to_fit capacity()={} < len()={}", q.capacity(), q.len());
         }
+        Step::Reserve { n, exact } if *n >= usize::MAX / 2 => {
+            // an amount no allocation can satisfy: the documented capacity-overflow panic is the
+            // one legitimate outcome; returning normally claims room that cannot exist
+            let (n, exact) = (*n, *exact);
+            let r = guarded(|| if exact { q.reserve_exact(n) } else { q.reserve(n) });
+            match r {
+                Err(_) => cx.probe("reserve_capacity_overflow_panic"),
+                Ok(()) => cx.fail(C17, "reserve_returned_without_room", format!("reserve{}({}) returned normally; capacity()={} len()={}", if exact { "_exact" } else { "" }, n, q.capacity(), q.len())),
+            }
+        }
         Step::Reserve { n, exact } => {
             if *exact {
                 q.reserve_exact(*n)
@@ -990,6 +1000,19 @@ pub fn exec(q: &mut AnyQ, m: &mut Model, st: &Step, cx: &mut Ctx) {
             let r2 = other.push(Key::new(1, 8), Prio::new(2));
             let top = other.pop(End::Max).map(|(key, pr)| (key.id(), pr.v));
             expect!(cx, C07, "append_other_usable", r.is_none() && r2.is_none() && top == Some((1, 2)) && other.len() == 1, "the emptied queue misbehaves after append: push->{:?},{:?} pop->{:?} len {}", r.map(|x| x.v), r2.map(|x| x.v), top, other.len());
+            // … and after a refill of a few more elements it must give them all back, in order
+            let refill: [(u32, i32); 5] = [(11, 10), (12, 30), (13, 20), (14, 5), (15, 30)];
+            for (k, p) in refill {
+                other.push(Key::new(k, 9), Prio::new(p));
+            }
+            let mut got = Vec::new();
+            while let Some((_, pr)) = other.pop(End::Max) {
+                got.push(pr.v);
+                if got.len() > 8 {
+                    break;
+                }
+            }
+            expect!(cx, C07, "append_other_usable", got == vec![30, 30, 20, 10, 5, 1], "the emptied queue misbehaves after append: refilled with priorities 1, 10, 30, 20, 5, 30 it pops {:?}", got);
             if cx.snapshot {
                 check_tables(&other, cx, "other queue after append");
             }
@@ -1660,6 +1683,9 @@ pub fn post_check(q: &mut AnyQ, m: &Model, st: &Step, cx: &mut Ctx) {
     let op_only = tags & !(C03 | C12 | C13 | C06);
     if cx.snapshot {
         check_tables(q, cx, "after step");
+    }
+    if let Some(v) = crate::queue::NE_DISAGREES.with(|c| c.take()) {
+        cx.fail(C14, "ne_disagrees_with_eq", format!("for the same two queues `a == b` and `a != b` both returned {}", v));
     }
     let s = q.contents();
     let n = s.len();
